@@ -1,5 +1,5 @@
 CONSTANTS T0 = 0  TF = 4  MAXN = 4
-  Dev = {}
+  Dev = {"carriesOnPastTheEvent"}
 SPECIFICATION Spec
 INVARIANT ReturnsExactlyTheRequestedTimesSorted
 INVARIANT OneColumnPerRequestedTime
